@@ -6,7 +6,7 @@ import os
 import struct
 
 from vf.core import SECTOR, Model, as_handle, rng_for
-from vf.diskcheck import compare_reads, continuation_reads, fault_retry_reads, crossing_count, gen_requests, mismatch_detail
+from vf.diskcheck import closed_handle_reads, compare_reads, continuation_reads, fault_retry_reads, crossing_count, gen_requests, mismatch_detail
 from vf.monitors import call
 from vf.writers import vhd as w
 
@@ -239,6 +239,8 @@ def run(case: dict, ctx) -> dict:
                 res["viol"].append({"what": "read_footer(fh) does not return the stored footer", "mech": MECH, "detail": {"outcome": ft.brief()}})
     if fh.mutations:
         res["viol"].append({"what": "handle mutated", "mech": "c09.handle", "detail": {"m": fh.mutations[:3]}})
+    if case["i"] % 3 == 0:
+        closed_handle_reads(v, model, [fh], reqs, rng, res, MECH)
     res["cnt"]["exhaustive_request_cases"] = int(exhaustive)
     if k == "fixed":
         res["cnt"]["fixed_cases"] = 1
